@@ -12,7 +12,7 @@
     Config outside these three functions (proxies writing to _modifications,
     reloads) are covered by the snapshot / object-identity test of the harness. *)
 From InvokeVerif Require Import Common.Tree Common.StrUtil Model.MergeModel Model.ConfigModel
-     Spec.C03Spec Proofs.C03_order Proofs.C11_clone Model.HeapMerge Proofs.C11_heap.
+     Spec.C03Spec Proofs.C03_order Proofs.C11_clone Model.HeapMerge Proofs.C11_heap Proofs.C11_heap_abs.
 
 (** [copy_dict] (the recursive copy used for every level) returns an equal
     dict: same keys, same order, same values, at every depth. *)
@@ -184,6 +184,42 @@ Theorem C11_clone_shares_nothing : forall f roots h l h',
   hwf h -> clone_levels_h f roots h = Ok (l, h') ->
   forall r a x, In a l -> r < List.length h -> reach h' r x -> reach h' a x -> False.
 Proof. exact clone_shares_nothing. Qed.
+
+(** * The heap model is the pure model with identities added
+
+    [rep h t a]: object [a] reads as the pure tree [t] (same keys, same order,
+    same values at every depth; sharing allowed).  [own h t a F]: moreover [a]
+    is a tree in the heap occupying exactly the objects [F] ([NoDup F]: no
+    internal sharing).
+    If [base] is such a tree and shares no object with [updates] (which may
+    share sub-dicts internally as it likes), then merge_dicts on the heap fails
+    exactly when the pure merge_dicts of the two readings fails (with the same
+    error), and otherwise leaves [base] reading as the pure result and still a
+    tree.  So the heap model and MergeModel.v are one story. *)
+Theorem C11_heap_refines_pure_merge : forall f h b u db us F,
+  depth (Node us) <= f -> wf (Node us) = true -> hwf h ->
+  own h (Node db) b F -> NoDup F -> rep h (Node us) u ->
+  (forall z, In z F -> reach h u z -> False) ->
+  match merge_dicts db (Node us) with
+  | Ok dm => exists h' F', merge_h f b u h = Ok h' /\ own h' (Node dm) b F' /\ NoDup F' /\
+                           rep h' (Node dm) b
+  | Err e => merge_h f b u h = Err e
+  end.
+Proof. exact merge_h_refines_merge_dicts. Qed.
+
+(** copy_dict on the heap yields a tree reading as the pure copy_dict of the
+    source's reading -- whatever sharing the source has. *)
+Theorem C11_heap_refines_pure_copy : forall f h src us,
+  depth (Node us) <= f -> wf (Node us) = true -> hwf h -> rep h (Node us) src ->
+  match copy_dict (Node us) with
+  | Ok dm => exists a h' F', copy_h f src h = Ok (a, h') /\ own h' (Node dm) a F' /\ NoDup F'
+  | Err e => copy_h f src h = Err e
+  end.
+Proof. exact copy_h_refines_copy_dict. Qed.
+
+(** [rep] is what the executable reader used by the correspondence computes. *)
+Theorem C11_rep_is_hview : forall t h a f, rep h t a -> depth t <= f -> hview f h a = Some t.
+Proof. exact rep_hview. Qed.
 
 (** Non-vacuity: a heap where [updates] shares one sub-dict between two keys and
     [base] holds an empty placeholder section; the merge succeeds, the
